@@ -179,6 +179,32 @@ def build(p):
             return [np.array(it.project_orb2grid_grad(f_uq.copy(), f_gq.copy()))]
 
         return fn, (mol, grids, gen)
+    if e == "grad_terms":
+        # the hand-partitioned per-atom reduction behind the analytic gradient, driven through the real Python wrapper
+        # with a stand-in interpolator: the chunk arithmetic depends on (number of grid points, team size) only, and the
+        # molecule fixtures reach just three point counts
+        import types
+
+        from ciderpress.dft.lcao_interpolation import LCAOInterpolator
+
+        n, natm = p["n"], p.get("natm", 3)
+        rs = np.random.RandomState(11 + seed + 7 * n)
+        iatom = np.ascontiguousarray(rs.randint(0, natm, size=n).astype(np.int32))
+        iatom[-1] = natm - 1  # the last point belongs to an atom that would otherwise be rare for tiny n
+        f_g = _vec(n, seed, 6)
+        stub = types.SimpleNamespace(grids_indexer=types.SimpleNamespace(iatom_list=iatom), atco=types.SimpleNamespace(natm=natm))
+
+        def fn():
+            excsum = np.zeros((natm, 3))
+            for a in range(natm):
+                for v in range(3):
+                    LCAOInterpolator._contract_grad_terms(stub, excsum, (1.0 + a + 0.5 * v) * f_g, a, v)
+            # the own-atom term is subtracted, so excsum sums to zero per direction: keep the per-atom partial sums too
+            part = np.zeros((natm, 3))
+            LCAOInterpolator._contract_grad_terms(stub, part, f_g, natm - 1, 0)
+            return [excsum, part]
+
+        return fn, (stub, iatom, f_g)
     if e == "se_kernel":
         from checks import c04
 
@@ -367,6 +393,10 @@ def entry_table(tier):
         for fam in ("VJ", "VIJ", "VK"):
             for interp in ("onsite_direct", "onsite_spline"):  # grad mode exists only for the direct interpolator
                 T.append({"entry": "grad", "layout": lay, "fam": fam, "interp": interp})
+    # hand-partitioned reduction of the gradient terms: point counts below, at and above the team sizes, multiples of 8
+    # with and without remainder (quick: a sample of residues; thorough: every count up to 140)
+    for n in ([1, 2, 3, 5, 8, 17, 33, 64, 67, 130] if quick else list(range(1, 141)) + [257, 1537]):
+        T.append({"entry": "grad_terms", "n": n, "natm": 3})
     # model kernels
     for kind in ("RBF", "AntisymRBF", "SpinRBF"):
         for n in SIZES + [17]:
